@@ -22,7 +22,13 @@ for f in sorted(os.listdir(os.path.join(w, "_mut"))):
     mm = re.match(rf"check_{m}_(C\d+)\.log$", f)
     if mm:
         t = open(os.path.join(w, "_mut", f), errors="replace").read()
-        shutil.copy(os.path.join(w, "_mut", f), os.path.join(d, f"check_{mm.group(1)}.log"))
+        dst = os.path.join(d, f"check_{mm.group(1)}.log")
+        if os.path.exists(dst) and open(dst, errors="replace").read() != t:
+            n = 1
+            while os.path.exists(os.path.join(d, f"check_{mm.group(1)}.earlier{n}.log")):
+                n += 1
+            shutil.move(dst, os.path.join(d, f"check_{mm.group(1)}.earlier{n}.log"))
+        shutil.copy(os.path.join(w, "_mut", f), dst)
         rc = re.findall(r"^rc=(\d+)", t, re.M)
         checks[mm.group(1)] = {"exit": int(rc[-1]) if rc else None,
                                "violations": re.findall(r"^VIOLATION .*$", t, re.M)[:6],
@@ -30,6 +36,10 @@ for f in sorted(os.listdir(os.path.join(w, "_mut"))):
                                "undecided": re.findall(r"^UNDECIDED .*$", t, re.M)[:4]}
 meta_path = os.path.join(d, "meta.json")
 meta = json.load(open(meta_path)) if os.path.exists(meta_path) else {}
+if meta.get("checks_run") and meta["checks_run"] != checks:
+    meta.setdefault("earlier_runs", []).append({"note": "run with an earlier version of the families / harnesses", "checks_run": meta["checks_run"]})
+    for k in list(meta["checks_run"]):
+        old = os.path.join(d, f"check_{k}.log")
 meta.update({
     "id": sid, "breaks_property": prop, "source": "independent sub-agent given only the property text and a scratch worktree",
     "confirmed_by_me": {
